@@ -894,6 +894,12 @@ func (rw *rewriter) rangeStmt(s *ast.RangeStmt, labelled bool) ast.Stmt {
 		return s
 	}
 	st.mapRanges++
+	// the code under test meets its maps in an order the run decides (the
+	// language promises none); the harness meets its own in sorted order
+	keysFn := "SortedKeys"
+	if *mapsFlag {
+		keysFn = "RangeKeys"
+	}
 	var pre []ast.Stmt
 	mexpr := s.X
 	if !simpleExpr(s.X) {
@@ -971,7 +977,7 @@ func (rw *rewriter) rangeStmt(s *ast.RangeStmt, labelled bool) ast.Stmt {
 		Key:   ast.NewIdent("_"),
 		Value: ast.NewIdent(kk),
 		Tok:   token.DEFINE,
-		X:     &ast.CallExpr{Fun: sel("zzsim", "SortedKeys"), Args: []ast.Expr{mexpr}},
+		X:     &ast.CallExpr{Fun: sel("zzsim", keysFn), Args: []ast.Expr{mexpr}},
 		Body:  &ast.BlockStmt{List: body},
 	}
 	if len(pre) == 0 {
